@@ -69,6 +69,28 @@ pub fn kind_num(k: std::io::ErrorKind) -> u8 {
         _ => 99,
     }
 }
+
+/// a scripted error of kind `k`, built in one of the ways real readers build theirs — a message, a bare kind, or a
+/// WRAPPED error of another kind (layered transports: TLS over TCP, timeouts) — chosen by a running counter; the kind
+/// the caller must see is `k` in every case
+pub fn scripted_error(k: u8) -> std::io::Error {
+    use std::sync::atomic::{AtomicUsize, Ordering};
+    static SHAPE: AtomicUsize = AtomicUsize::new(0);
+    let kind = num_kind(k);
+    match SHAPE.fetch_add(1, Ordering::Relaxed) % 4 {
+        0 => std::io::Error::new(kind, "scripted"),
+        1 => std::io::Error::from(kind),
+        2 => {
+            let inner = if kind == std::io::ErrorKind::WouldBlock { std::io::ErrorKind::TimedOut } else { std::io::ErrorKind::WouldBlock };
+            std::io::Error::new(kind, std::io::Error::new(inner, "inner"))
+        }
+        _ => {
+            let inner = if kind == std::io::ErrorKind::Interrupted { std::io::ErrorKind::Other } else { std::io::ErrorKind::Interrupted };
+            std::io::Error::new(kind, std::io::Error::new(std::io::ErrorKind::Other, std::io::Error::from(inner)))
+        }
+    }
+}
+
 pub fn num_kind(k: u8) -> std::io::ErrorKind {
     use std::io::ErrorKind::*;
     match k {
@@ -127,6 +149,9 @@ pub struct ASrw {
     pub facts: Vec<Option<u8>>,
     pub fi: usize,
     pub log: Log,
+    /// whether the stream advertises and performs real gathering writes (`is_write_vectored()`), like a socket; set on the
+    /// implementation side only
+    pub vectored: bool,
 }
 
 // the harness is single-threaded; the adapters only require Send for their type parameters
@@ -134,7 +159,7 @@ unsafe impl Send for ASrw {}
 
 impl ASrw {
     pub fn new(id: usize, data: &[u8], racts: Vec<RAct>) -> ASrw {
-        ASrw { id, data: data.to_vec(), pos: 0, racts, ri: 0, wacts: vec![], wi: 0, facts: vec![], fi: 0, log: Log::default() }
+        ASrw { id, data: data.to_vec(), pos: 0, racts, ri: 0, wacts: vec![], wi: 0, facts: vec![], fi: 0, log: Log::default(), vectored: false }
     }
     pub fn twin(&self, log: &Log) -> ASrw {
         let mut t = self.clone();
@@ -213,7 +238,7 @@ impl ASrw {
                 _ => return None,
             });
         }
-        Some(ASrw { id: p[0].parse().ok()?, data: unhex(p[1])?, pos: 0, racts, ri: 0, wacts, wi: 0, facts, fi: 0, log: log.clone() })
+        Some(ASrw { id: p[0].parse().ok()?, data: unhex(p[1])?, pos: 0, racts, ri: 0, wacts, wi: 0, facts, fi: 0, log: log.clone(), vectored: false })
     }
 }
 
@@ -245,7 +270,7 @@ impl AsyncRead for ASrw {
                 }
                 RAct::Err(k) => {
                     s.log.borrow_mut().push(format!("R{}:{}:err{}", s.id, cap, k));
-                    Poll::Ready(Err(std::io::Error::new(num_kind(k), "scripted")))
+                    Poll::Ready(Err(scripted_error(k)))
                 }
                 RAct::Data(k, scr) => {
                     let n = k.min(cap).min(s.data.len() - s.pos);
@@ -276,12 +301,25 @@ impl AsyncWrite for ASrw {
                 WAct::Full => (format!("ok{}", b.len()), Poll::Ready(Ok(b.len()))),
                 WAct::Part(k) => (format!("ok{}", k.min(b.len())), Poll::Ready(Ok(k.min(b.len())))),
                 WAct::Zero => ("ok0".to_string(), Poll::Ready(Ok(0))),
-                WAct::Err(k) => (format!("err{}", k), Poll::Ready(Err(std::io::Error::new(num_kind(k), "scripted")))),
+                WAct::Err(k) => (format!("err{}", k), Poll::Ready(Err(scripted_error(k)))),
                 WAct::Pending => ("pending".to_string(), Poll::Pending),
             };
             s.log.borrow_mut().push(format!("W{}:{}:{}", s.id, hex(b), txt));
             r
         })
+    }
+    fn is_write_vectored(&self) -> bool {
+        self.vectored
+    }
+    fn poll_write_vectored(self: Pin<&mut Self>, cx: &mut Context<'_>, bufs: &[std::io::IoSlice<'_>]) -> Poll<std::io::Result<usize>> {
+        if self.vectored {
+            // a gathering write: one scripted write over the concatenation (also when it is empty)
+            let all: Vec<u8> = uncounted(|| bufs.iter().flat_map(|b| b.iter().copied()).collect());
+            self.poll_write(cx, &all)
+        } else {
+            let first: &[u8] = bufs.iter().find(|b| !b.is_empty()).map(|b| &**b).unwrap_or(&[]);
+            self.poll_write(cx, first)
+        }
     }
     fn poll_flush(self: Pin<&mut Self>, _cx: &mut Context<'_>) -> Poll<std::io::Result<()>> {
         let s = self.get_mut();
@@ -291,7 +329,7 @@ impl AsyncWrite for ASrw {
             let (txt, r) = match a {
                 None => ("ok".to_string(), Poll::Ready(Ok(()))),
                 Some(255) => ("pending".to_string(), Poll::Pending),
-                Some(k) => (format!("err{}", k), Poll::Ready(Err(std::io::Error::new(num_kind(k), "scripted")))),
+                Some(k) => (format!("err{}", k), Poll::Ready(Err(scripted_error(k)))),
             };
             s.log.borrow_mut().push(format!("F{}:{}", s.id, txt));
             r
@@ -305,7 +343,7 @@ impl AsyncWrite for ASrw {
             let (txt, r) = match a {
                 None => ("ok".to_string(), Poll::Ready(Ok(()))),
                 Some(255) => ("pending".to_string(), Poll::Pending),
-                Some(k) => (format!("err{}", k), Poll::Ready(Err(std::io::Error::new(num_kind(k), "scripted")))),
+                Some(k) => (format!("err{}", k), Poll::Ready(Err(scripted_error(k)))),
             };
             s.log.borrow_mut().push(format!("S{}:{}", s.id, txt));
             r
